@@ -107,6 +107,7 @@ struct Agg {
     found: Vec<Found>,
     harness_errors: Vec<String>,
     families: BTreeMap<String, u64>,
+    survey: BTreeMap<String, (u64, u64)>,
 }
 
 pub struct BatchResult {
@@ -185,6 +186,11 @@ pub fn run_batch(prop: Box<dyn Property>, tier: Tier) -> BatchResult {
         let agg = agg.clone();
         let slots = slots.clone();
         let known = known.clone();
+        let survey = std::env::var("VERIF_SURVEY").is_ok();
+        let trace_cases = std::env::var("VERIF_TRACE").is_ok();
+        let slot_file = std::env::var("JAWK_SIM_SLOTS")
+            .ok()
+            .and_then(|p| std::fs::OpenOptions::new().write(true).open(p).ok());
         handles.push(std::thread::spawn(move || {
             let tmp = worker_tmp(&format!("w{wi}"));
             let mut local = Agg::default();
@@ -198,11 +204,22 @@ pub fn run_batch(prop: Box<dyn Property>, tier: Tier) -> BatchResult {
                 }
                 slots[wi].1.store(started.elapsed().as_millis() as u64, Ordering::SeqCst);
                 slots[wi].0.store(index + 1, Ordering::SeqCst);
+                if let Some(f) = &slot_file {
+                    use std::os::unix::fs::FileExt;
+                    let _ = f.write_at(&(index + 1).to_le_bytes(), (wi * 8) as u64);
+                }
                 let mut rng = Rng::new(case_seed(seed, prop.id(), index));
                 let case = prop.generate(&mut rng, tier);
+                if trace_cases {
+                    eprintln!("case {index} {:?}", case.argv());
+                }
                 let mut ctx = Ctx::new(tier, tmp.clone());
                 let res = full_check(prop.as_ref(), &case, &mut ctx);
                 slots[wi].0.store(0, Ordering::SeqCst);
+                if let Some(f) = &slot_file {
+                    use std::os::unix::fs::FileExt;
+                    let _ = f.write_at(&0u64.to_le_bytes(), (wi * 8) as u64);
+                }
                 local.cases += 1;
                 *local.families.entry(case.family.clone()).or_insert(0) += 1;
                 local.stats.merge(&ctx.stats);
@@ -255,6 +272,10 @@ pub fn run_batch(prop: Box<dyn Property>, tier: Tier) -> BatchResult {
                             if let Some(k) = known::matches(&known, prop.id(), &v.rule, &failing, &v.detail) {
                                 let e = local.known_hits.entry(k.id.clone()).or_insert((0, k.description.clone()));
                                 e.0 += 1;
+                            } else if survey {
+                                let key = format!("{} | {}", v.rule, v.detail.chars().take(110).collect::<String>());
+                                let e = local.survey.entry(key).or_insert((0, index));
+                                e.0 += 1;
                             } else {
                                 local.found.push(Found {
                                     index,
@@ -286,6 +307,11 @@ pub fn run_batch(prop: Box<dyn Property>, tier: Tier) -> BatchResult {
             for (k, v) in local.families {
                 *g.families.entry(k).or_insert(0) += v;
             }
+            for (k, v) in local.survey {
+                let e = g.survey.entry(k).or_insert((0, v.1));
+                e.0 += v.0;
+                e.1 = e.1.min(v.1);
+            }
         }));
     }
     for h in handles {
@@ -299,6 +325,9 @@ pub fn run_batch(prop: Box<dyn Property>, tier: Tier) -> BatchResult {
             println!("HARNESS-ERROR property={id} {h}");
         }
         return BatchResult { exit: 2 };
+    }
+    for (k, (n, i)) in &g.survey {
+        println!("SURVEY property={id} count={n} first_index={i} {k}");
     }
     for (k, (n, d)) in &g.known_hits {
         println!("KNOWN-FINDING: property={id} {k}: {d} (hit {n} times)");
@@ -518,6 +547,144 @@ pub fn replay(path: &Path) -> i32 {
         Ok(None) => {
             println!("replay: property {} held on this case (recorded rule {})", rf.property, rf.rule);
             0
+        }
+    }
+}
+
+
+/// Supervisor: run the batch in a child process so that an abort of jawk (allocation
+/// failure, stack overflow) becomes a reported, replayable violation instead of a dead
+/// harness. The child records the case index each worker is executing in a slot file.
+pub fn supervise(id: &str, tier: Tier) -> i32 {
+    let exe = std::env::current_exe().unwrap();
+    let tier_s = if tier == Tier::Quick { "quick" } else { "thorough" };
+    let slots_path = worker_tmp("slots").join("slots");
+    let nslots = 256usize;
+    let _ = std::fs::write(&slots_path, vec![0u8; nslots * 8]);
+    let status = std::process::Command::new(&exe)
+        .arg("batch")
+        .arg(id)
+        .arg(tier_s)
+        .env("JAWK_SIM_SLOTS", &slots_path)
+        .status();
+    let cleanup = || {
+        if let Some(d) = slots_path.parent() {
+            let _ = std::fs::remove_dir_all(d);
+        }
+    };
+    let status = match status {
+        Ok(s) => s,
+        Err(e) => {
+            println!("HARNESS-ERROR property={id} cannot spawn the batch process: {e}");
+            cleanup();
+            return 2;
+        }
+    };
+    if let Some(code) = status.code() {
+        cleanup();
+        return code;
+    }
+    // killed by a signal: find the scenario that did it
+    let raw = std::fs::read(&slots_path).unwrap_or_default();
+    cleanup();
+    let mut candidates: Vec<u64> = raw
+        .chunks(8)
+        .filter_map(|c| <[u8; 8]>::try_from(c).ok())
+        .map(u64::from_le_bytes)
+        .filter(|v| *v > 0)
+        .map(|v| v - 1)
+        .collect();
+    candidates.sort_unstable();
+    candidates.dedup();
+    println!(
+        "jawk-sim: the batch process of {id} was killed ({status}); re-running the {} in-flight scenarios in isolation",
+        candidates.len()
+    );
+    let Some(prop) = crate::props::by_id(id) else {
+        return 2;
+    };
+    let seed = seed_from_env();
+    let root = verif_root();
+    for index in candidates {
+        let st = std::process::Command::new(&exe)
+            .arg("one")
+            .arg(id)
+            .arg(index.to_string())
+            .arg(tier_s)
+            .stdout(std::process::Stdio::null())
+            .stderr(std::process::Stdio::null())
+            .status();
+        if let Ok(st) = st {
+            if st.code().is_none() {
+                let mut rng = Rng::new(case_seed(seed, id, index));
+                let case = prop.generate(&mut rng, tier);
+                let rule = format!("{id}.abort");
+                let detail = format!("the process was killed ({st}) while executing this scenario: jawk aborted (allocation failure or stack overflow) instead of returning an error");
+                let path = write_replay(&root, id, index, seed, &case, &rule, &detail);
+                println!(
+                    "VIOLATION property={id} replay={} rule={rule} case_index={index} seed={seed} (not minimised: the scenario kills its process)",
+                    path.display()
+                );
+                println!("  detail: {detail}");
+                let ev = json!({
+                    "property_id": id, "tier": tier_s, "seed": seed as i64, "level": prop.level(),
+                    "wall_s": 0.0, "violations": 1,
+                    "coverage": {"evaluations": index + 1, "distinct_nontrivial": 0, "rule": prop.rule(),
+                        "samples": [serde_json::to_value(&case).unwrap_or(json!(null))],
+                        "explanation": "the batch process was killed by a signal; this file only records the aborting scenario"}
+                });
+                let _ = std::fs::create_dir_all(root.join("evidence"));
+                let _ = std::fs::write(root.join("evidence").join(format!("{id}.json")), serde_json::to_string_pretty(&ev).unwrap() + "\n");
+                return 1;
+            }
+        }
+    }
+    println!("HARNESS-ERROR property={id} the batch process was killed ({status}) but no in-flight scenario reproduces it in isolation");
+    2
+}
+
+/// Run one generated scenario (by index) in this process; used by the supervisor.
+pub fn one(id: &str, index: u64, tier: Tier) -> i32 {
+    let Some(prop) = crate::props::by_id(id) else {
+        return 2;
+    };
+    let seed = seed_from_env();
+    let mut rng = Rng::new(case_seed(seed, id, index));
+    let case = prop.generate(&mut rng, tier);
+    let tmp = worker_tmp("one");
+    let mut ctx = Ctx::new(tier, tmp.clone());
+    let r = full_check(prop.as_ref(), &case, &mut ctx);
+    let _ = std::fs::remove_dir_all(&tmp);
+    match r {
+        Err(_) => 2,
+        Ok(Some(_)) => 1,
+        Ok(None) => 0,
+    }
+}
+
+/// Replay in a child so that an aborting case is reported rather than killing the caller.
+pub fn replay_supervised(path: &Path) -> i32 {
+    let exe = std::env::current_exe().unwrap();
+    let st = std::process::Command::new(&exe).arg("replay-inner").arg(path).status();
+    match st {
+        Ok(s) => match s.code() {
+            Some(c) => c,
+            None => {
+                let prop = std::fs::read_to_string(path)
+                    .ok()
+                    .and_then(|t| serde_json::from_str::<ReplayFile>(&t).ok())
+                    .map_or_else(|| "?".to_string(), |r| r.property);
+                println!(
+                    "VIOLATION property={prop} replay={} rule={prop}.abort",
+                    path.display()
+                );
+                println!("  detail: the process executing this case was killed ({s})");
+                1
+            }
+        },
+        Err(e) => {
+            println!("HARNESS-ERROR cannot spawn replay: {e}");
+            2
         }
     }
 }
